@@ -384,6 +384,12 @@ func main() {
 				}
 			}
 		}
+		if max := ev.Pick(r, 400, 1500); len(sel) > max {
+			// far more layouts than a 3-value set has on the pinned code (e.g. a counter was added to
+			// the structure): the shallowest ones are used as operands, the run is not exhaustive
+			sel = sel[:max]
+			r.MarkCapped()
+		}
 		all := append(append([]operand{}, ops[0]...), sel...)
 		r.Set("operands_used", len(all))
 		var idx int64 = -1
